@@ -19,7 +19,10 @@ package main
 //             context.DeadlineExceeded - the component's own deadline, wrapped with pkg/errors - which is a component
 //             failure and never "the error of the engine's context"; cn: the cause is context.Canceled of a context of
 //             the component's own - a component failure as long as the engine's context is live, which the generator
-//             guarantees by using it only together with slow:block and faults that do not end the instances)
+//             guarantees by using it only together with slow:block and faults that do not end the instances;
+//             fw: context.Canceled wrapped with fmt.Errorf("%w") - what the http provider's loadAmmo returns when its
+//             preload is interrupted - which errors.Cause does not see through: a component failure)
+//   prov pos additionally: load = the provider hands out no ammo and blocks (a slow preload) until its context is done
 //   prov/agg ret additionally: ctxw = the context's error wrapped with pkg/errors (still the context's error)
 // output : res=<cls> canc=<0|1> lat=<fast|mid|slow|-> wait=<ok|hang> leak=<n> eng=<pool results Engine.Run consumed>
 //          engc=<0|1> sup=<pool results that were suppressed>
@@ -114,7 +117,7 @@ func parsePosRet(s string) (posRet, error) {
 	}
 	pr.ret = ret
 	switch pr.pos {
-	case "pre", "mid", "end", "late":
+	case "pre", "mid", "end", "late", "load":
 	default:
 		return pr, fmt.Errorf("bad pos %q", pos)
 	}
@@ -159,7 +162,7 @@ func parsePool(s string) (poolSpec, error) {
 		case "ek":
 			switch v {
 			case "plain", "-":
-			case "dl", "cn":
+			case "dl", "cn", "fw":
 				ps.ek = v
 			default:
 				return ps, fmt.Errorf("bad ek %q", v)
@@ -321,6 +324,12 @@ func (p *poolRt) verr(comp string) error {
 		// context of the engine (those are only ever cancelled)
 		return pkgerrors.WithMessage(pkgerrors.WithStack(context.DeadlineExceeded), fmt.Sprintf("verr.%s.p%d", comp, p.idx))
 	}
+	if p.spec.ek == "fw" {
+		// a context error wrapped with fmt's %w: pkg/errors.Cause does not see through it, so for the engine
+		// (errutil.IsCtxError, pinned by lib/errutil's own test) and by the component contract (core.Provider.Run:
+		// "error caused ctx.Err() in terms of github.com/pkg/errors.Cause") this is a component failure
+		return fmt.Errorf("verr.%s.p%d: %w", comp, p.idx, context.Canceled)
+	}
 	if p.spec.ek == "cn" {
 		return pkgerrors.WithMessage(pkgerrors.WithStack(context.Canceled), fmt.Sprintf("verr.%s.p%d", comp, p.idx))
 	}
@@ -356,6 +365,12 @@ func (m provMock) Run(ctx context.Context, _ core.ProviderDeps) error {
 	s := p.spec.prov
 	if s.pos == "pre" {
 		close(p.ammoCh)
+		return p.retOf(ctx, s.ret, "prov")
+	}
+	if s.pos == "load" {
+		<-ctx.Done()
+		close(p.ammoCh)
+		p.c.jitter()
 		return p.retOf(ctx, s.ret, "prov")
 	}
 	for i := 0; p.spec.ammo < 0 || i < p.spec.ammo; i++ {
@@ -632,6 +647,11 @@ var runMu sync.Mutex // goroutine accounting needs exclusive runs
 const maxHangs = 4
 
 var hangs atomic.Int64
+
+// the same for cases that leave goroutines behind
+const maxLeaks = 8
+
+var leaks atomic.Int64
 
 func runCase(input string) string {
 	pl, err := parsePlan(input)
@@ -950,7 +970,7 @@ func supervisedRun(input string) string {
 	}
 	sup.mu.Lock()
 	defer sup.mu.Unlock()
-	if hangs.Load() >= maxHangs || sup.deaths >= maxDeaths {
+	if hangs.Load() >= maxHangs || sup.deaths >= maxDeaths || leaks.Load() >= maxLeaks {
 		return "SKIPPED-AFTER-HANGS"
 	}
 	if sup.cmd == nil {
@@ -993,6 +1013,10 @@ func supervisedRun(input string) string {
 		if strings.Contains(obs, "res=runhang") || strings.Contains(obs, "wait=hang") {
 			hangs.Add(1)
 			// goroutines of a hung run stay behind: continue in a fresh process
+			supKill()
+		} else if !strings.Contains(obs, " leak=0 ") {
+			// leaked goroutines: every such case costs the full settle time; a few establish the violation
+			leaks.Add(1)
 			supKill()
 		}
 		return obs
